@@ -1,14 +1,28 @@
 """C17 - Lines connect their end points and stay on the ideal line."""
 from common import *
 
-CLAIMED = False   # set True by the owner once ./check C17 passes with real theorems
+CLAIMED = True
 LEVEL = 'proof'
-LEVEL_TEXT = 'TODO'
-LEVEL_NOTE = 'TODO'
-RULE = 'TODO'
+LEVEL_TEXT = ('Proof (thin lines): 12 Coq theorems over the Gallina model of BresenhamParameters::new / Bresenham::next / Points '
+              '(coq/Model/Line.v) state, for ALL lines with coordinates within +-2^28: first point = start, last = end, '
+              'max(|dx|,|dy|)+1 points, each step is one pixel along the major axis and 0 or 1 along the minor axis in the direction '
+              'of the line, every point is within half a pixel of the ideal line (2|cross| <= dmaj along the minor axis; '
+              '4 cross^2 <= dx^2+dy^2 Euclidean; projection inside the segment), coordinates are monotone, the sequence equals a closed '
+              'form (k*dmin/dmaj rounded to nearest, ties towards the start), points() commutes with translation, and no i32 '
+              'intermediate overflows. The model is tied to the code by running the extracted model and Line::points() on the same '
+              'inputs on every run.')
+LEVEL_NOTE = ('Trusted: Coq kernel, extraction (ExtrOcamlBasic), the OCaml/Rust drivers; the hand-written model is validated by '
+              'differential testing (exhaustive small grids + random long lines up to 2^20), not proved equal to the Rust code; '
+              'arithmetic is unbounded Z, the theorems carry line_ok (+-2^28) and C17_line_no_overflow shows i32 suffices there.')
+RULE = ('correspondence: Line::points() vs the extracted model for all lines with end points in [-R,R]^2 (R=5 quick, 9 thorough; '
+        'all octants, axis-parallel, diagonal, zero length), random lines of major length 20..40000 anywhere within +-2^19 with a '
+        'share of exact diagonals / ties (dmin = dmaj/2) / near-axis slopes, and whole-sequence digests of lines up to 2^21 long. '
+        'non-trivial = model result non-empty; distinct = distinct case lines. '
+        'search p_line: every thin clause of the property evaluated in exact i128 arithmetic on the real Line::points().')
 EXHAUSTIVE = {'quick': False, 'thorough': False}
-ASSUMPTIONS = []
-TRUSTED = []
+ASSUMPTIONS = ['line_ok: all four coordinates within +-2^28 (so that 2*|delta| and the error accumulator fit i32); '
+               'beyond it the implementation overflows (panic in debug, wrap in release) and C17 makes no claim']
+TRUSTED = ['modelled, not verified: Point +/-/abs as unbounded Z operations, `as u32` of a non-negative i32']
 PARTIAL = []
 
 
